@@ -1,7 +1,12 @@
 //! C11 — bounding boxes and extrema are conservative and tight; monotone splits hold.
 //!
 //! Families (each at f32 and f64): `seg`, `tri`, `quad`, `cubic`, `arc`; `path` (f32, through
-//! `lyon_algorithms::aabb`); `fit` (f32, `lyon_algorithms::fit::{fit_box, fit_path}`).
+//! `lyon_algorithms::aabb`); `fit` (f32, `lyon_algorithms::fit::{fit_box, fit_path}`); `path_box`
+//! (f32: the path-level box along the dimensions of the path's HISTORY - the path, `Path::reversed`
+//! of it, its sub-paths drawn in another order, and the union of lyon's own per-segment exact
+//! boxes must all give the same box; mostly structured paths on a small lattice: flat
+//! horizontal / vertical curves, zero-length segments, single-point sub-paths, segments whose end
+//! point is the unique extreme of the path).
 //!
 //! IMPL prints every modelled function (inherent methods; the `BoundingBox` trait of segment.rs is
 //! not exported by lyon_geom, so its forwarding glue cannot be called from outside; callback
@@ -844,6 +849,184 @@ fn gen_path(g: Gen, rng: &mut Rng) -> Vec<Ev> {
     evs
 }
 
+/// Structured paths on a small integer lattice (times a power of two, optionally shifted: every
+/// coordinate is exact in f32) - the shapes random coordinates never produce: exactly horizontal
+/// or vertical quadratics / cubics (control polygon of zero height or width), zero-length
+/// segments, straight edges written as curves, single-point sub-paths, and "outward" segments whose
+/// end point lies strictly beyond everything drawn before (so that it is the only thing that can
+/// put that side of the box where it belongs).  Returns the builder calls and a shape word for TAG.
+fn gen_path_lattice(rng: &mut Rng) -> (Vec<Ev>, String) {
+    type IP = (i64, i64);
+    let r = *rng.pick(&[1i64, 2, 3, 5, 8]);
+    let s = *rng.pick(&[0.25f32, 1.0, 1.0, 1.0, 8.0]);
+    let (ox, oy) = if rng.chance(1, 4) { (rng.range(-40, 40), rng.range(-40, 40)) } else { (0, 0) };
+    let cv = |p: IP| -> Point<f32> { point(p.0 as f32 * s, p.1 as f32 * s) };
+    let rp = |rng: &mut Rng| -> IP { (ox + rng.range(-r, r), oy + rng.range(-r, r)) };
+    // a value between a and b (inclusive)
+    let between = |rng: &mut Rng, a: i64, b: i64| -> i64 { rng.range(a.min(b), a.max(b)) };
+    let mut evs = Vec::new();
+    let (mut flat, mut zero, mut single, mut outward, mut straight) = (false, false, false, false, false);
+    // extent of every point generated so far: (x0, x1, y0, y1)
+    let mut ext: Option<(i64, i64, i64, i64)> = None;
+    fn grow(ext: &mut Option<(i64, i64, i64, i64)>, p: (i64, i64)) {
+        *ext = Some(match *ext {
+            None => (p.0, p.0, p.1, p.1),
+            Some(e) => (e.0.min(p.0), e.1.max(p.0), e.2.min(p.1), e.3.max(p.1)),
+        });
+    }
+    let nsub = match rng.below(12) {
+        0 => 0,
+        1..=6 => 1,
+        7..=9 => 2,
+        _ => rng.range(3, 4),
+    };
+    for _ in 0..nsub {
+        let mut cur = rp(rng);
+        evs.push(Ev::B(cv(cur)));
+        grow(&mut ext, cur);
+        let nseg = match rng.below(8) {
+            0 => 0,
+            1..=2 => 1,
+            _ => rng.range(2, 5),
+        };
+        single |= nseg == 0;
+        for _ in 0..nseg {
+            // the points of the segment after `cur`: 1 = line, 2 = quadratic, 3 = cubic
+            let pts: Vec<IP> = match rng.below(16) {
+                0 | 1 => vec![rp(rng)],
+                2 => {
+                    zero = true;
+                    vec![cur; rng.range(1, 3) as usize]
+                }
+                3..=6 => {
+                    // flat: every point shares cur's y (horizontal) or x (vertical)
+                    flat = true;
+                    let n = rng.range(2, 3) as usize;
+                    let horiz = rng.chance(1, 2);
+                    (0..n)
+                        .map(|_| {
+                            let d = rng.range(-r - 2, r + 2);
+                            if horiz {
+                                (cur.0 + d, cur.1)
+                            } else {
+                                (cur.0, cur.1 + d)
+                            }
+                        })
+                        .collect()
+                }
+                7 => {
+                    // a straight edge in any direction written as a curve: control points at the ends
+                    straight = true;
+                    let to = rp(rng);
+                    if rng.chance(1, 2) {
+                        vec![if rng.chance(1, 2) { cur } else { to }, to]
+                    } else {
+                        vec![if rng.chance(1, 2) { cur } else { to }, if rng.chance(1, 2) { cur } else { to }, to]
+                    }
+                }
+                8 | 9 => {
+                    // outward: the end point is strictly beyond everything so far in one direction;
+                    // as a line, or as a flat curve with its control points on the way
+                    outward = true;
+                    let e = ext.unwrap();
+                    let step = rng.range(1, 3);
+                    let (to, horiz) = match rng.below(4) {
+                        0 => ((e.1 + step, cur.1), true),
+                        1 => ((e.0 - step, cur.1), true),
+                        2 => ((cur.0, e.3 + step), false),
+                        _ => ((cur.0, e.2 - step), false),
+                    };
+                    let n = rng.range(0, 2) as usize;
+                    flat |= n > 0;
+                    let mut v: Vec<IP> = (0..n)
+                        .map(|_| if horiz { (between(rng, cur.0, to.0), cur.1) } else { (cur.0, between(rng, cur.1, to.1)) })
+                        .collect();
+                    v.push(to);
+                    v
+                }
+                10..=12 => vec![rp(rng), rp(rng)],
+                _ => vec![rp(rng), rp(rng), rp(rng)],
+            };
+            for p in &pts {
+                grow(&mut ext, *p);
+            }
+            evs.push(match pts.len() {
+                1 => Ev::L(cv(pts[0])),
+                2 => Ev::Q(cv(pts[0]), cv(pts[1])),
+                _ => Ev::C(cv(pts[0]), cv(pts[1]), cv(pts[2])),
+            });
+            cur = *pts.last().unwrap();
+        }
+        evs.push(Ev::E(rng.chance(1, 2)));
+    }
+    let mut shape = String::from("structured");
+    for (on, w) in [(flat, "flat"), (zero, "zero-length"), (straight, "straight-curve"), (outward, "outward"), (single, "single-point")] {
+        if on {
+            shape.push('+');
+            shape.push_str(w);
+        }
+    }
+    (evs, shape)
+}
+
+/// the builder calls of a path case: the plain generator, or (one in `den`) the structured one
+fn gen_path_mixed(g: Gen, rng: &mut Rng, num: u64, den: u64) -> (Vec<Ev>, String) {
+    if rng.chance(num, den) {
+        gen_path_lattice(rng)
+    } else {
+        (gen_path(g, rng), g.name().to_string())
+    }
+}
+
+/// the calls of each sub-path (a sub-path starts at its `begin`)
+fn split_subs(evs: &[Ev]) -> Vec<Vec<Ev>> {
+    let mut out: Vec<Vec<Ev>> = Vec::new();
+    for e in evs {
+        if matches!(e, Ev::B(_)) || out.is_empty() {
+            out.push(Vec::new());
+        }
+        out.last_mut().unwrap().push(e.clone());
+    }
+    out
+}
+
+/// the same sub-paths drawn in the order k, k+1, …, n-1, 0, …, k-1
+fn rotate_subs(evs: &[Ev], k: usize) -> Vec<Ev> {
+    let subs = split_subs(evs);
+    let k = k.min(subs.len());
+    subs[k..].iter().chain(subs[..k].iter()).flatten().cloned().collect()
+}
+
+/// union (componentwise `Point::min` / `Point::max`) of lyon's own exact boxes of the pieces of the
+/// path: the point of a `Begin`, the segment of every `Line` / `Quadratic` / `Cubic`, the closing
+/// edge of a closing `End`; the zero box for the empty path
+fn union_of_segment_boxes(path: &Path) -> Box2D<f32> {
+    use lyon_path::Event;
+    let mut acc: Option<Box2D<f32>> = None;
+    for e in path.iter() {
+        let b = match e {
+            Event::Begin { at } => Some(Box2D { min: at, max: at }),
+            Event::Line { from, to } => Some(LineSegment { from, to }.bounding_box()),
+            Event::Quadratic { from, ctrl, to } => Some(QuadraticBezierSegment { from, ctrl, to }.bounding_box()),
+            Event::Cubic { from, ctrl1, ctrl2, to } => Some(CubicBezierSegment { from, ctrl1, ctrl2, to }.bounding_box()),
+            Event::End { last, first, close } => {
+                if close {
+                    Some(LineSegment { from: last, to: first }.bounding_box())
+                } else {
+                    None
+                }
+            }
+        };
+        if let Some(b) = b {
+            acc = Some(match acc {
+                None => b,
+                Some(a) => Box2D { min: a.min.min(b.min), max: a.max.max(b.max) },
+            });
+        }
+    }
+    acc.unwrap_or(Box2D { min: point(0.0, 0.0), max: point(0.0, 0.0) })
+}
+
 fn build_path(evs: &[Ev]) -> Path {
     let mut b = Path::builder();
     for e in evs {
@@ -923,13 +1106,49 @@ fn put_evs(o: &mut Out, evs: &[Ev]) {
     }
 }
 
+/// the path-level clauses of the property on lyon's outputs `b` (exact box) and `f` (fast box) for
+/// the path the calls `evs` build: the exact box contains every point of every segment (closing
+/// edges included; f64 reference: analytic extremes + dense samples of each segment), every side
+/// is touched, the fast box contains the exact one; the empty path gets the zero box
+fn path_oracle(orc: &mut Oracle, evs: &[Ev], b: &Box2D<f32>, f: &Box2D<f32>) {
+    let segs = path_segments(evs);
+    if segs.is_empty() {
+        let z = point(0.0f32, 0.0);
+        orc.check(b.min == z && b.max == z && f.min == z && f.max == z, "path.bounding_box/empty", "generic", || format!("{:?} {:?}", b, f));
+        return;
+    }
+    let all: Vec<Point<f32>> = segs.iter().flatten().cloned().collect();
+    let env = 64.0 * f32::EPS * maxabs(&all).max(1e-30);
+    let (mut x0, mut x1, mut y0, mut y1) = (f64::INFINITY, f64::NEG_INFINITY, f64::INFINITY, f64::NEG_INFINITY);
+    for s in &segs {
+        let (rx, ry) = (range1(&xs(s)), range1(&ys(s)));
+        x0 = x0.min(rx.0);
+        x1 = x1.max(rx.1);
+        y0 = y0.min(ry.0);
+        y1 = y1.max(ry.1);
+    }
+    let (bx0, bx1, by0, by1) = (b.min.x.f(), b.max.x.f(), b.min.y.f(), b.max.y.f());
+    let e = (bx0 - x0).max(x1 - bx1).max(by0 - y0).max(y1 - by1);
+    let cancel_class = if segs.iter().any(|s| cancels(s)) { "cubic-deriv-cancellation" } else { "generic" };
+    orc.check(e <= env, "path.bounding_box/contains", cancel_class, || {
+        format!("box=({},{})-({},{}) path extent x=[{},{}] y=[{},{}] outside by {:e}", bx0, by0, bx1, by1, x0, x1, y0, y1, e)
+    });
+    let e = (x0 - bx0).max(bx1 - x1).max(y0 - by0).max(by1 - y1);
+    orc.check(e <= env, "path.bounding_box/tight", "generic", || {
+        format!("box=({},{})-({},{}) path extent x=[{},{}] y=[{},{}] err {:e}", bx0, by0, bx1, by1, x0, x1, y0, y1, e)
+    });
+    let (fx0, fx1, fy0, fy1) = (f.min.x.f(), f.max.x.f(), f.min.y.f(), f.max.y.f());
+    let e = (fx0 - bx0).max(bx1 - fx1).max(fy0 - by0).max(by1 - fy1);
+    orc.check(e <= env, "path.fast_bounding_box/contains-exact", "generic", || format!("outside by {:e}", e));
+}
+
 fn path_case(ctx: &mut Ctx) {
     ctx.case("path:32", |rng| {
         let g = Gen::pick(rng);
-        let evs = gen_path(g, rng);
+        let (evs, shape) = gen_path_mixed(g, rng, 1, 4);
         let mut args = Out::new();
         put_evs(&mut args, &evs);
-        let tag = format!("path {} events={}{}", g.name(), evs.len().min(12), if evs.is_empty() { " trivial" } else { "" });
+        let tag = format!("path {} events={}{}", shape, evs.len().min(12), if evs.is_empty() { " trivial" } else { "" });
         (args, tag, move || {
             let path = build_path(&evs);
             let b = aabb::bounding_box(path.iter());
@@ -940,34 +1159,81 @@ fn path_case(ctx: &mut Ctx) {
             o.t("fbox");
             put_box(&mut o, &f);
             let mut orc = Oracle::new();
-            let segs = path_segments(&evs);
-            if segs.is_empty() {
-                let z = point(0.0f32, 0.0);
-                orc.check(b.min == z && b.max == z && f.min == z && f.max == z, "path.bounding_box/empty", "generic", || format!("{:?} {:?}", b, f));
-            } else {
-                let all: Vec<Point<f32>> = segs.iter().flatten().cloned().collect();
+            path_oracle(&mut orc, &evs, &b, &f);
+            CaseOut { imp: o, orcl: orc.verdict }
+        })
+    });
+}
+
+/// largest componentwise distance between two boxes
+fn box_dist(a: &Box2D<f32>, b: &Box2D<f32>) -> f64 {
+    (a.min.x.f() - b.min.x.f())
+        .abs()
+        .max((a.min.y.f() - b.min.y.f()).abs())
+        .max((a.max.x.f() - b.max.x.f()).abs())
+        .max((a.max.y.f() - b.max.y.f()).abs())
+}
+
+/// The box of a path does not depend on how the path came about: the property fixes it as THE box
+/// that contains every point and is touched on all four sides, so `aabb::bounding_box` of the path,
+/// of `Path::reversed` (same point set, every segment traversed backwards, the events in the
+/// opposite order), of the same sub-paths drawn in another order, and the union of lyon's own exact
+/// boxes of the segments must agree (up to the rounding of the extremum evaluation).  All of it is
+/// tied to the model (`Model/Algo/Aabb.lean`: `Path::iter`, `Path::reversed`, the fold, the union).
+fn path_box_case(ctx: &mut Ctx) {
+    ctx.case("path_box:32", |rng| {
+        let g = Gen::pick(rng);
+        let (evs, shape) = gen_path_mixed(g, rng, 3, 4);
+        let nsub = split_subs(&evs).len();
+        let k = if nsub > 1 { rng.range(1, nsub as i64 - 1) as usize } else { 0 };
+        let mut args = Out::new();
+        put_evs(&mut args, &evs);
+        args.u(k as u64);
+        let tag = format!("path_box {} subs={}{}", shape, nsub.min(4), if evs.is_empty() { " trivial" } else { "" });
+        (args, tag, move || {
+            let path = build_path(&evs);
+            let b = aabb::bounding_box(path.iter());
+            let f = aabb::fast_bounding_box(path.iter());
+            let rb = aabb::bounding_box(path.reversed());
+            let rf = aabb::fast_bounding_box(path.reversed());
+            let rot_evs = rotate_subs(&evs, k);
+            let rot = build_path(&rot_evs);
+            let ob = aabb::bounding_box(rot.iter());
+            let un = union_of_segment_boxes(&path);
+            let mut o = Out::new();
+            o.t("box");
+            put_box(&mut o, &b);
+            o.t("fbox");
+            put_box(&mut o, &f);
+            o.t("rev");
+            put_box(&mut o, &rb);
+            put_box(&mut o, &rf);
+            o.t("rot");
+            put_box(&mut o, &ob);
+            o.t("union");
+            put_box(&mut o, &un);
+
+            let mut orc = Oracle::new();
+            path_oracle(&mut orc, &evs, &b, &f);
+            let all: Vec<Point<f32>> = path_segments(&evs).iter().flatten().cloned().collect();
+            if !all.is_empty() {
                 let env = 64.0 * f32::EPS * maxabs(&all).max(1e-30);
-                let (mut x0, mut x1, mut y0, mut y1) = (f64::INFINITY, f64::NEG_INFINITY, f64::INFINITY, f64::NEG_INFINITY);
-                for s in &segs {
-                    let (rx, ry) = (range1(&xs(s)), range1(&ys(s)));
-                    x0 = x0.min(rx.0);
-                    x1 = x1.max(rx.1);
-                    y0 = y0.min(ry.0);
-                    y1 = y1.max(ry.1);
-                }
-                let (bx0, bx1, by0, by1) = (b.min.x.f(), b.max.x.f(), b.min.y.f(), b.max.y.f());
-                let e = (bx0 - x0).max(x1 - bx1).max(by0 - y0).max(y1 - by1);
-                let cancel_class = if segs.iter().any(|s| cancels(s)) { "cubic-deriv-cancellation" } else { "generic" };
-                orc.check(e <= env, "path.bounding_box/contains", cancel_class, || {
-                    format!("box=({},{})-({},{}) path extent x=[{},{}] y=[{},{}] outside by {:e}", bx0, by0, bx1, by1, x0, x1, y0, y1, e)
+                let show = |x: &Box2D<f32>| format!("({},{})-({},{})", x.min.x, x.min.y, x.max.x, x.max.y);
+                let e = box_dist(&b, &un);
+                orc.check(e <= env, "path.bounding_box/union-of-segment-boxes", "generic", || {
+                    format!("path box {} but the exact boxes of its segments join to {} (differ by {:e}, env {:e})", show(&b), show(&un), e, env)
                 });
-                let e = (x0 - bx0).max(bx1 - x1).max(y0 - by0).max(by1 - y1);
-                orc.check(e <= env, "path.bounding_box/tight", "generic", || {
-                    format!("box=({},{})-({},{}) path extent x=[{},{}] y=[{},{}] err {:e}", bx0, by0, bx1, by1, x0, x1, y0, y1, e)
+                let e = box_dist(&b, &rb);
+                orc.check(e <= env, "path.bounding_box/reversal-invariant", "generic", || {
+                    format!("path box {} but the reversed path (same points) has {} (differ by {:e}, env {:e})", show(&b), show(&rb), e, env)
                 });
-                let (fx0, fx1, fy0, fy1) = (f.min.x.f(), f.max.x.f(), f.min.y.f(), f.max.y.f());
-                let e = (fx0 - bx0).max(bx1 - fx1).max(fy0 - by0).max(by1 - fy1);
-                orc.check(e <= env, "path.fast_bounding_box/contains-exact", "generic", || format!("outside by {:e}", e));
+                let e = box_dist(&b, &ob);
+                orc.check(e <= env, "path.bounding_box/subpath-order-invariant", "generic", || {
+                    format!("path box {} but with the sub-paths rotated by {} it is {} (differ by {:e}, env {:e})", show(&b), k, show(&ob), e, env)
+                });
+                // the reversed path is a path too: its fast box contains its exact box
+                let e = (rf.min.x.f() - rb.min.x.f()).max(rb.max.x.f() - rf.max.x.f()).max(rf.min.y.f() - rb.min.y.f()).max(rb.max.y.f() - rf.max.y.f());
+                orc.check(e <= env, "path.fast_bounding_box/contains-exact", "generic", || format!("reversed path: outside by {:e}", e));
             }
             CaseOut { imp: o, orcl: orc.verdict }
         })
@@ -979,7 +1245,7 @@ fn path_case(ctx: &mut Ctx) {
 fn fit_case(ctx: &mut Ctx) {
     ctx.case("fit:32", |rng| {
         let g = if rng.chance(1, 2) { Gen::Lattice } else { Gen::Uniform };
-        let mut evs = gen_path(g, rng);
+        let (mut evs, shape) = gen_path_mixed(g, rng, 1, 4);
         if evs.is_empty() && rng.chance(3, 4) {
             evs = vec![Ev::B(point(0.0, 0.0)), Ev::L(point(1.0, 2.0)), Ev::E(false)];
         }
@@ -991,7 +1257,7 @@ fn fit_case(ctx: &mut Ctx) {
         args.p(dst.min).p(dst.max).u(style_ix);
         let styles = [FitStyle::Stretch, FitStyle::Min, FitStyle::Max, FitStyle::Horizontal, FitStyle::Vertical];
         let names = ["stretch", "min", "max", "horizontal", "vertical"];
-        let tag = format!("fit {} {}", g.name(), names[style_ix as usize]);
+        let tag = format!("fit {} {}", shape, names[style_ix as usize]);
         (args, tag, move || {
             let path = build_path(&evs);
             let src = aabb::bounding_box(path.iter());
@@ -1067,6 +1333,7 @@ fn main() {
         arc_case::<f32>(&mut ctx);
         arc_case::<f64>(&mut ctx);
         path_case(&mut ctx);
+        path_box_case(&mut ctx);
         seg_case::<f32>(&mut ctx);
         seg_case::<f64>(&mut ctx);
         tri_case::<f32>(&mut ctx);
